@@ -110,6 +110,37 @@ def run_volume(eng, p):
     return "ok"
 
 
+def run_get_volume(eng, p):
+    """get_volume (the per-event wrapper): a contour with n >= 4 points has
+    a volume (not NaN), and repeating one vertex -- a zero-length segment --
+    does not change it"""
+    from vf.symnp import SMat
+    from vf.symx import SFloat
+    n = p["n"]
+    xs = [eng.real("cx%d" % i) for i in range(n)]
+    ys = [eng.real("cy%d" % i) for i in range(n)]
+    px, py = eng.real("posx"), eng.real("posy")
+    npx = SymNP()
+    ns = shadow(VO, np=npx, len=len, min=min)
+    gv = ns["get_volume"]
+
+    def vol(xl, yl):
+        cont = SMat([[a, b] for a, b in zip(xl, yl)], float)
+        with quiet():
+            return gv(cont, px, py, 1.0)
+    v1 = SFloat.lift(vol(xs, ys))
+    eng.prove(z3.Not(v1.nan) if n >= 4 else v1.nan,
+              "get_volume: a contour of >= 4 points has a volume, fewer "
+              "points give NaN")
+    if n >= 4:
+        k = p["dup"]
+        v2 = SFloat.lift(vol(xs[:k + 1] + xs[k:], ys[:k + 1] + ys[k:]))
+        eng.prove(z3.And(z3.Not(v2.nan), v2.v == v1.v),
+                  "get_volume: repeating a vertex does not change the "
+                  "volume")
+    return "ok"
+
+
 # ------------------------------------------------------------- brightness
 class UFs:
     """uninterpreted std / percentile: same pixels -> same symbol"""
@@ -251,9 +282,10 @@ def run_crosstalk(eng, p):
 
 def run_case(name, params):
     eng = Engine(timeout_ms=60000, nra=params["kind"] in (
-        "moments", "volume", "crosstalk"))
+        "moments", "volume", "crosstalk", "get_volume"))
     fn = {"moments": run_moments, "volume": run_volume, "bright": run_bright,
-          "crosstalk": run_crosstalk}[params["kind"]]
+          "crosstalk": run_crosstalk, "get_volume": run_get_volume}[
+        params["kind"]]
     eng.explore(lambda e: fn(e, params))
     return eng.stats()
 
@@ -268,6 +300,13 @@ def cases(tier, seed):
         for law in ("flip", "scale"):
             out.append(("volume n=%d %s" % (n, law),
                         dict(kind="volume", n=n, law=law)))
+    out.append(("get_volume n=3", dict(kind="get_volume", n=3, dup=0)))
+    for dup in ((0, 3) if tier == "quick" else (0, 1, 2, 3)):
+        out.append(("get_volume n=4 dup=%d" % dup,
+                    dict(kind="get_volume", n=4, dup=dup)))
+    if tier == "thorough":
+        out.append(("get_volume n=5 dup=2", dict(kind="get_volume", n=5,
+                                                 dup=2)))
     for nev in (1, 2):
         out.append(("bright nev=%d" % nev, dict(kind="bright", fn="bright",
                                                 nev=nev, off="none")))
@@ -373,6 +412,33 @@ def replay(case, params, v):
                                  % (p["law"], a, m1[a], b, m2[b],
                                     cont.tolist()))
         key = "cont_moments_cv|%s" % p["law"]
+    elif k == "get_volume":
+        n = p["n"]
+        gv = real(VO, "get_volume")
+        cont = np.array([[float(vals.get("cx%d" % i, 0) or 0),
+                          float(vals.get("cy%d" % i, 0) or 0)]
+                         for i in range(n)])
+        pos = (float(vals.get("posx", 0) or 0), float(vals.get("posy", 0)
+                                                      or 0))
+        trials = [cont, np.array([[0., 1.], [2., 1.], [2., 3.], [0., 3.]][:n]
+                                 + [[1., 4.]] * max(0, n - 4))]
+        for c in trials:
+            v1 = gv(c, pos[0], pos[1], 1.0)
+            if n >= 4 and np.isnan(v1):
+                fails.append("get_volume of the %d-point contour %r is NaN"
+                             % (n, c.tolist()))
+                break
+            if n >= 4:
+                kd = p["dup"]
+                c2 = np.concatenate([c[:kd + 1], c[kd:]])
+                v2 = gv(c2, pos[0], pos[1], 1.0)
+                if not np.isclose(v1, v2, rtol=1e-9, atol=1e-12,
+                                  equal_nan=False):
+                    fails.append("get_volume changes from %r to %r when "
+                                 "vertex %d of %r is repeated" % (
+                                     v1, v2, kd, c.tolist()))
+                    break
+        key = "get_volume|contour-size"
     elif k == "volume":
         n = p["n"]
         r = np.array([float(vals.get("r%d" % i, 0)) for i in range(n)])
